@@ -270,11 +270,22 @@ pub fn in_child<F: FnOnce() -> i32>(timeout: Duration, f: F) -> ChildRun {
             if libc::WIFEXITED(status) {
                 exit = Exit::Code(libc::WEXITSTATUS(status));
             } else if libc::WIFSIGNALED(status) {
-                exit = Exit::Signal(libc::WTERMSIG(status));
+                // SIGALRM is the child's own per-configuration watchdog (arm_watchdog)
+                exit = if libc::WTERMSIG(status) == libc::SIGALRM { Exit::Timeout } else { Exit::Signal(libc::WTERMSIG(status)) };
             }
         }
         let (obs, notes) = parse(&s.data());
         ChildRun { exit, obs, notes, wall: start.elapsed() }
+    }
+}
+
+/// Child-side: (re)arm the per-configuration watchdog; the default action of
+/// SIGALRM ends the process, which the parent reports as a timeout.
+pub fn arm_watchdog(ms: u64) {
+    unsafe {
+        let it = libc::itimerval { it_interval: libc::timeval { tv_sec: 0, tv_usec: 0 }, it_value: libc::timeval { tv_sec: (ms / 1000) as libc::time_t, tv_usec: ((ms % 1000) * 1000) as libc::suseconds_t } };
+        libc::signal(libc::SIGALRM, libc::SIG_DFL);
+        libc::setitimer(libc::ITIMER_REAL, &it, std::ptr::null_mut());
     }
 }
 
